@@ -29,7 +29,10 @@ EXPLANATION = (
     'HnswBackend::insert must contain, before WalWriter::append, a guard of the same class whose failing edge cannot '
     'reach the append and whose passing edge every path to the append crosses (DIM exempt when the backend dimension '
     'is 0; NORM = propagated normalize_in_place_if_needed with its own non-finite-norm and zero-norm refusals, accepted '
-    'only together with FINITE). R2–R5: DOM/ORD/WMC rules of DESIGN §4.3.')
+    'only together with FINITE). Equivalent shapes of a guard are classified by what they decide, not by their text: FINITE also as '
+    'an explicit loop over the whole embedding that sets a flag tested after it (finite_flag_guards: every element is_finite-tested, '
+    'the flag untouched only when the iterator is exhausted), FULL also through HnswVectorIndex::is_full when its body is that '
+    'comparison, IDCAST as any test of the Err-ness of try_from(doc_id). R2–R5: DOM/ORD/WMC rules of DESIGN §4.3.')
 
 CLASSES = [
     ('DIM', r'^!cmp\[\+ .*(HnswVectorIndex\.dimension - slice::len\(arg:embedding\)|slice::len\(arg:embedding\) - .*HnswVectorIndex\.dimension) == 0\]$'),
@@ -94,7 +97,7 @@ def _call_local(call):
 
 
 def _mentions(body, l):
-    """(bb, kind) of every read / borrow of local l in the live part of the body (kind: 'ref', 'use', 'arg', 'switch', 'drop')."""
+    """(bb, kind) of every read / borrow of local l in the live part of the body (kind: 'ref' = borrowed or assigned through, 'use', 'arg', 'switch')."""
     out = []
     for i in sorted(body.live_blocks()):
         blk = body.blocks[i]
